@@ -18,15 +18,24 @@
 (*  mjx         "none" | "v2" (class='MJX-..') | "v3" (class='data-mjx-..')*)
 (*  lookalike   token TEXT that looks like what a pass deletes:            *)
 (*              "none" | "class" (the text class='MJX-1') | "prefix" (the  *)
-(*              text </m:x written with &lt;)                              *)
+(*              text xmlns:m='..MathML')                                   *)
+(*  defaultDecl the root carries xmlns='http://www.w3.org/1998/Math/MathML'*)
+(*              (only when prefix = "none")                                *)
+(*  otherNs     a declaration of ANOTHER namespace (xmlns:xlink=...) on    *)
+(*              the root: "none" | "after" | "before" the MathML           *)
+(*              declaration                                                *)
 (***************************************************************************)
 EXTENDS Naturals, Sequences, FiniteSets, TLC, Json
-CONSTANTS EntityRegexAllowsDigits     \* TRUE: &([a-zA-Z0-9]+?); (the code since the fix); FALSE: pinned commit &([a-zA-Z]+?);
+CONSTANTS EntityRegexAllowsDigits,    \* TRUE: &([a-zA-Z0-9]+?); (the code since the fix); FALSE: pinned commit &([a-zA-Z]+?);
+          FirstDeclarationBecomesDefault    \* TRUE: pinned commit - the FIRST 'xmlns:name' of the string is rewritten to 'xmlns' whatever it declares;
+                                            \* FALSE: only the declaration of the MathML namespace (the code since the fix)
 
 Entities == {"raw", "named", "named-with-digit", "dec", "hex"}
 Spellings == [entity : Entities \cup {"unknown-name"}, prefix : {"none", "m", "mml"}, space : BOOLEAN, comment : BOOLEAN, pi : BOOLEAN,
-              quote : {"single", "double"}, mjx : {"none", "v2", "v3"}, lookalike : {"none", "class", "prefix"}]
-Base == [entity |-> "raw", prefix |-> "none", space |-> FALSE, comment |-> FALSE, pi |-> FALSE, quote |-> "single", mjx |-> "none", lookalike |-> "none"]
+              quote : {"single", "double"}, mjx : {"none", "v2", "v3"}, lookalike : {"none", "class", "prefix"},
+              defaultDecl : BOOLEAN, otherNs : {"none", "after", "before"}]
+Base == [entity |-> "raw", prefix |-> "none", space |-> FALSE, comment |-> FALSE, pi |-> FALSE, quote |-> "single", mjx |-> "none", lookalike |-> "none",
+         defaultDecl |-> FALSE, otherNs |-> "none"]
 
 (* What the XML infoset of a spelling is (what an XML processor that knows the named entities would see), as far as MathCAT is
    concerned: the character, the local element names, the token text, and no MathJax bookkeeping. *)
@@ -40,11 +49,18 @@ EntityPass(s) ==          \* HTML_ENTITIES.replace_all
     [] OTHER -> s
 MathJaxPass(s) ==         \* MATHJAX_V2 / V3 .replace_all on the whole string: attributes AND text that looks like them
   [s EXCEPT !.mjx = "none", !.lookalike = IF s.lookalike = "class" /\ s.quote = s.quote THEN "class-deleted" ELSE s.lookalike]
-PrefixPass(s) ==          \* NAMESPACE_DECL.replace (FIRST match only: the declaration if there is one, else text that reads 'xmlns:name');
-                          \* PREFIX.replace_all: '(</?)alpha+:' - text written with &lt; is safe
-  [s EXCEPT !.prefix = "none", !.lookalike = IF s.lookalike = "prefix" /\ s.prefix = "none" THEN "prefix-deleted" ELSE s.lookalike]
+PrefixPass(s) ==          \* NAMESPACE_DECL.replace (first match only), then PREFIX.replace_all: '(</?)alpha+:' - text written with &lt; is safe.
+  \* pinned commit: the first 'xmlns:name' becomes 'xmlns' - the MathML declaration if it comes first; ANOTHER declaration if that one
+  \* comes first (a second default namespace next to xmlns='..MathML': parse error);
+  \* with no declaration at all, text that reads 'xmlns:name'.  Since the fix: only a declaration of the MathML namespace.
+  LET firstIsOther == s.otherNs # "none" /\ (s.prefix = "none" \/ s.otherNs = "before")
+      breaks == FirstDeclarationBecomesDefault /\ firstIsOther /\ s.prefix = "none" /\ s.defaultDecl
+  IN [s EXCEPT !.prefix = IF breaks THEN "error-namespace" ELSE "none",
+               \* text that reads  xmlns:m='http://www.w3.org/1998/Math/MathML'  is the first match when no prefixed declaration precedes it
+               !.lookalike = IF s.lookalike = "prefix" /\ s.prefix = "none" /\ (FirstDeclarationBecomesDefault => s.otherNs = "none") THEN "prefix-deleted" ELSE s.lookalike]
 Parser(s) ==              \* sxd_document: numeric references are resolved; a named entity it does not know is an error
   IF s.entity = "error-no-entity-named" THEN [err |-> "No entity named", char |-> "", text |-> ""]
+  ELSE IF s.prefix = "error-namespace" THEN [err |-> "invalid MathML (namespace)", char |-> "", text |-> ""]
   ELSE IF s.entity = "named-with-digit" THEN [err |-> "invalid MathML (undeclared entity)", char |-> "", text |-> ""]
   ELSE [err |-> "", char |-> "the-character", text |-> s.lookalike]          \* trim_element removes comments, PIs and insignificant white space
 Result(s) == Parser(PrefixPass(MathJaxPass(EntityPass(s))))
@@ -58,6 +74,8 @@ Next == \/ \E v \in Entities \cup {"unknown-name"} : Rewrite("entity", v)
         \/ \E v \in {"single", "double"} : Rewrite("quote", v)
         \/ \E v \in {"none", "v2", "v3"} : Rewrite("mjx", v)
         \/ \E v \in {"none", "class", "prefix"} : Rewrite("lookalike", v)
+        \/ \E v \in BOOLEAN : sp.prefix = "none" /\ Rewrite("defaultDecl", v)
+        \/ \E v \in {"none", "after", "before"} : Rewrite("otherNs", v)
 Spec == Init /\ [][Next]_<<sp, n>>
 
 \* spellings of one document (same infoset) give the same result; an unknown name is reported
